@@ -476,8 +476,8 @@ func TestLoadThenEnv(t *testing.T) {
 		var overV value
 		var cands []field
 		for _, f := range s.fields {
-			if f.env != "" && !used[f.path] {
-				cands = append(cands, f)
+			if f.env != "" {
+				cands = append(cands, f) // also settings the file itself sets: the variable wins
 			}
 		}
 		if len(cands) > 0 && rapid.Bool().Draw(t, "override") {
@@ -508,8 +508,12 @@ func TestLoadThenEnv(t *testing.T) {
 		json.Unmarshal(before, &bm)
 		json.Unmarshal(after, &am)
 		if over != nil {
-			// the overridden setting may change; everything else must not
+			// the overridden setting shows the variable's value; everything else
+			// must not change
 			if shown, ok := getPath(am, over.path); ok {
+				if !sameValue(over.kind, overV.v, shown) {
+					t.Fatalf("%s: the environment variable for %s = %q was accepted on top of a loaded configuration but the saved form shows %s\nsettings: %v", s.name, over.path, overV.env, canonJSON(shown), desc)
+				}
 				setPath(bm, over.path, shown)
 			}
 		}
